@@ -112,14 +112,14 @@ static int cb_count, cb_stop, cb_accept, cb_erase;
 static int find_visit(const void *e, void *p)
 {
     int id = id_of_el(e);
-    (void)p;
+    e_check_priv(p);
     ev_add("[\"v\",%d]", id);
     return id == cb_accept;
 }
 static int each_visit(void *e, void *p)
 {
     int id = id_of_el(e);
-    (void)p;
+    e_check_priv(p);
     cb_count++;
     ev_add("[\"v\",%d]", id);
     if (cb_erase && id > 0) {
@@ -132,7 +132,7 @@ static int each_visit(void *e, void *p)
 }
 static int each_visit_const(const void *e, void *p)
 {
-    (void)p;
+    e_check_priv(p);
     cb_count++;
     ev_add("[\"v\",%d]", id_of_el(e));
     return (cb_stop && cb_count == cb_stop) ? 100 + cb_stop : 0;
@@ -176,7 +176,7 @@ static void drv_apply(const vop_t *op, jb_t *res)
         void *r;
         cb_accept = op->a[2];
         a_begin(0);
-        r = cstl_hash_find(h, (size_t)op->a[0], op->a[1] ? find_visit : NULL, NULL);
+        r = cstl_hash_find(h, (size_t)op->a[0], op->a[1] ? find_visit : NULL, E_PRIV);
         a_end();
         jb_printf(res, ",\"ret\":%d", id_of_el(r));
         break;
@@ -189,14 +189,14 @@ static void drv_apply(const vop_t *op, jb_t *res)
     case 6: {
         int r;
         cb_count = 0; cb_stop = op->a[0]; cb_erase = op->a[1];
-        a_begin(0); r = cstl_hash_foreach(h, each_visit, NULL); a_end();
+        a_begin(0); r = cstl_hash_foreach(h, each_visit, E_PRIV); a_end();
         jb_printf(res, ",\"ret\":%d", r);
         break;
     }
     case 7: {
         int r;
         cb_count = 0; cb_stop = op->a[0]; cb_erase = 0;
-        a_begin(0); r = cstl_hash_foreach_const(h, each_visit_const, NULL); a_end();
+        a_begin(0); r = cstl_hash_foreach_const(h, each_visit_const, E_PRIV); a_end();
         jb_printf(res, ",\"ret\":%d", r);
         break;
     }
